@@ -7,10 +7,17 @@
 
 mod alloc;
 mod canon;
+mod games;
+mod idcheck;
+mod gen_games;
+mod master;
 mod net;
+mod quake;
 mod reader;
+mod settings;
 mod small;
 mod valve;
+mod views;
 
 use std::io::{BufRead, Write};
 use std::panic::{catch_unwind, AssertUnwindSafe};
@@ -24,6 +31,11 @@ fn entries() -> Vec<(&'static str, EntryFn)> {
     let mut v: Vec<(&'static str, EntryFn)> = Vec::new();
     v.extend(reader::entries());
     v.extend(valve::entries());
+    v.extend(master::entries());
+    v.extend(settings::entries());
+    v.extend(games::entries());
+    v.extend(idcheck::entries());
+    v.extend(quake::entries());
     v.extend(small::entries());
     v
 }
